@@ -9,6 +9,7 @@ import (
 	"reservoir/metrics"
 	"reservoir/utils/bytesize"
 	"reservoir/utils/duration"
+	"reservoir/utils/verifhook"
 	"slices"
 	"sync"
 	"time"
@@ -68,10 +69,12 @@ func (j *cacheJanitor[MetadataT]) start(ctx context.Context) {
 				j.cleanExpiredEntries()
 				j.ensureCacheSize()
 				metrics.Global.Cache.CleanupRuns.Increment()
+				verifhook.At("janitor.cycle.done", nil)
 				slog.Info("Cache cleanup cycle complete")
 			case newInterval := <-j.intervalChanged:
 				j.interval = newInterval
 				ticker.Reset(j.interval)
+				verifhook.At("janitor.interval.applied", j.interval)
 				slog.Info("Cache cleanup ticker reset", "new_interval", j.interval)
 			case <-j.stopChan:
 				slog.Info("Cache cleanup task stopped")
@@ -112,6 +115,7 @@ func (j *cacheJanitor[MetadataT]) cleanExpiredEntries() {
 		slog.Info("Found expired cache entry for key", "key", key.Hex)
 		keysToRemove = append(keysToRemove, key)
 	}
+	verifhook.At("janitor.scan.done", keysToRemove)
 
 	for _, key := range keysToRemove {
 		slog.Info("Removing expired cache entry for key", "key", key.Hex)
@@ -170,6 +174,8 @@ func (j *cacheJanitor[MetadataT]) evict(maxCacheBytes int64) {
 	slices.SortFunc(candidates, func(x, y entryForEviction) int {
 		return cmp.Compare(y.priority, x.priority) // Swapped x and y for descending order
 	})
+
+	verifhook.At("janitor.evict.sorted", maxCacheBytes)
 
 	// Evict entries until we're under the limit
 	targetSize := int64(float64(maxCacheBytes) * 0.8) // Evict to 80% to avoid thrashing
